@@ -406,7 +406,7 @@ def _(sp, r, E, PV):
     Q = MATQ(r)
 
     def col(j):
-        return named_array(ip, "A_qfcol", [r, E, PV, j], n, lambda i, j=j: DENV(v, i, E, PV) * z3.Select(Q, i, j))
+        return named_array(ip, "A_qfcol", [r, E, PV, j], n, lambda i, j=j: DENV(v, i, E, PV) * sym.msel(Q, i, j))
     outer = named_array(ip, "A_qf", [r, E, PV], n, lambda j: psum(ip, col(j), n) * DENV(v, j, E, PV))
     ip.path.assume(sp.S.DEN(r, E, PV) == psum(ip, outer, n))
 
@@ -424,3 +424,27 @@ def _(sp, r, E, PV):
 @rule("occ", "QuadraticForm")
 def _(sp, r, w):
     _occ_vec(sp, r, w, [FV(sp, r)])
+
+
+# ------------------------------------------------------------------------------------------- SYN of vector nodes
+from .specfns import SYN      # noqa: E402
+
+
+def vec_syn(sp, v):
+    n = VLEN(v)
+    register_vector(sp, v)
+    alls = named_forall(sp.ip, "SYNALL", [v], n, lambda k: SYN(ELEME(v, k)))
+    return z3.Or(sp.K.is_kind(v, "VectorVariable"), alls(n))
+
+
+for _k in ("VectorSum", "LinearCombination"):
+    @rule("syn", _k)
+    def _(sp, r):
+        sp.ip.path.assume(SYN(r) == vec_syn(sp, FV(sp, r)))
+
+# kinds the LP extraction routines have no arm for: a degree <= 1 must never be reported for them
+for _k in ("L2Norm", "L1Norm", "VectorUnarySum", "ElementwiseUnary", "MatrixSum", "FrobeniusNorm", "VectorExpressionSum",
+           "DotProduct", "QuadraticForm", "VectorPowerSum", "ElementwisePower"):
+    @rule("syn", _k)
+    def _(sp, r):
+        sp.ip.path.assume(z3.Not(SYN(r)))
